@@ -115,7 +115,7 @@ structure MergeState where
   out    : List Nat      -- `all_out`
   newIdx : List Nat      -- column `new_idx`, parallel to the mapping
   leadOf : List Nat      -- per variable: the variable it was merged into (itself while it remains)
-  ok     : Bool          -- false once the assertion on equal `disp_factor`s failed
+  err    : Option PeriodicError   -- the first exception raised inside the loop
   deriving Repr, Inhabited
 
 /-- `A[:,leading] += A[:,out].sum(axis = 1)` on a sparse row: the entries of the `out` columns are added
@@ -132,11 +132,15 @@ def sameFactors (II : List MapRow) : Bool :=
   | [] => true
   | m0 :: _ => II.all fun m => m.factor == m0.factor
 
-/-- body of the innermost loop -/
+/-- body of the innermost loop.  `self.l[vars]` raises `IndexError` for a label beyond the variables; the
+    assertion on equal `disp_factor`s of ALL rows of the group comes after the update.  After the first
+    exception nothing else happens. -/
 def mergeStep (M : List MapRow) (labels : List (Nat × Nat × Nat)) (st : MergeState) (k : GroupKey) : MergeState :=
+  if st.err.isSome then st else
   let vars := groupVars M labels st.out k
   match vars with
   | lead :: o :: os =>
+    if vars.any (fun v => decide (st.l.length ≤ v)) then { st with err := some .index } else
     let outs := o :: os
     let sumOf (xs : List Rat) : Rat := (vars.map fun v => xs.getD v 0).sum
     let mean (xs : List Rat) : Rat := sumOf xs / (vars.length : Rat)
@@ -147,13 +151,13 @@ def mergeStep (M : List MapRow) (labels : List (Nat × Nat × Nat)) (st : MergeS
       out := st.out ++ outs
       newIdx := (M.zip st.newIdx).map fun q => if outs.contains q.1.var then lead else q.2
       leadOf := (List.range st.leadOf.length).map fun j => if outs.contains j then lead else st.leadOf.getD j j
-      ok := st.ok && sameFactors (M.filter (inGroup labels k)) }
+      err := if sameFactors (M.filter (inGroup labels k)) then none else some .assertion }
   | _ => st
 
 def mergeAll (P : AssetProblem) (labels : List (Nat × Nat × Nat)) : MergeState :=
   (groupKeys P.mapping labels).foldl (mergeStep P.mapping labels)
     { l := P.l, u := P.u, c := P.c, rows := P.rows, out := [], newIdx := P.mapping.map (·.var),
-      leadOf := List.range P.l.length, ok := true }
+      leadOf := List.range P.l.length, err := none }
 
 /-- `my_idx`: the remaining variables -/
 def keepVars (n : Nat) (out : List Nat) : List Nat := (List.range n).filter fun j => !out.contains j
@@ -175,13 +179,15 @@ def relabelRows (keep : List Nat) : List (MapRow × Nat) → Except PeriodicErro
 def compactRow (keep : List Nat) (r : Row) : Row :=
   { r with coeffs := r.coeffs.filterMap fun p => (newPos keep p.1).map fun q => (q, p.2) }
 
-/-- `__make_periodic__`, part (2) and the final compaction.  A label `≥ len(l)` raises `IndexError` in the
-    code (at the latest in `new_pos[...]`); the model reports it up front. -/
+/-- `__make_periodic__`, part (2) and the final compaction.  A label `≥ len(l)` that went unnoticed in the
+    loop raises `IndexError` in `new_pos[...]`. -/
 def makePeriodic (P : AssetProblem) (labels : List (Nat × Nat × Nat)) : Except PeriodicError AssetProblem :=
   let n := P.l.length
-  if P.mapping.any (fun m => decide (n ≤ m.var)) then .error .index else
   let st := mergeAll P labels
-  if !st.ok then .error .assertion else
+  match st.err with
+  | some e => .error e
+  | none =>
+  if P.mapping.any (fun m => decide (n ≤ m.var)) then .error .index else
   let keep := keepVars n st.out
   match relabelRows keep (P.mapping.zip st.newIdx) with
   | .error e => .error e
@@ -288,7 +294,8 @@ def agreesWithGeneric (P : AssetProblem) (labels : List (Nat × Nat × Nat)) : B
   | .error _ => true
   | .ok Q =>
     let st := mergeAll P labels
-    let G := mergeProblem P (finalLead P labels) st.l st.u
+    let lo := st.leadOf                       -- evaluated once (`finalLead P labels j = lo.getD j j`)
+    let G := mergeProblem P (fun j => lo.getD j j) st.l st.u
     decide (Q.c = G.c) && decide (Q.l = G.l) && decide (Q.u = G.u) && decide (Q.mapping = G.mapping) &&
       decide (Q.rows.length = G.rows.length) &&
       (Q.rows.zip G.rows).all fun q =>
